@@ -168,6 +168,11 @@ def programs(rng, nthreads, ncmds):
             elif rng.random() < 0.05:
                 p.append([b'watch', rng.choice(gen.POOLS['Kk'])])
                 i += 1
+            elif rng.random() < 0.08:
+                # a short-lived second connection that subscribes and is closed: its deferred clean-up runs in someone's next command
+                p.append(('side', [[rng.choice([b'subscribe', b'psubscribe']), rng.choice([b'ch1', b'c*'])]]))
+                p.append([b'publish', b'ch1', b'm'])
+                i += 2
             else:
                 p.append(g.command(rng.choice(names)))
                 i += 1
@@ -191,6 +196,15 @@ def run_trial(seed, nthreads, ncmds, version=7, switch=1e-6):
             barrier.wait()
             sock = TSock(srv)                      # concurrent first connections
             for j, f in enumerate(progs[t]):
+                if isinstance(f, tuple) and f[0] == 'side':
+                    side = TSock(srv)
+                    for sf in f[1]:
+                        cid = (t + 1) * 10000 + 5000 + j
+                        tr.ev.append('call:%d:%d' % (t + 1, cid))
+                        side.sendall(corr.encode_request(sf))
+                        tr.ev.append('ret:%d:%d' % (t + 1, cid))
+                    side.close()
+                    continue
                 cid = (t + 1) * 10000 + j
                 clock.logs[t + 1] = []
                 tr.ev.append('call:%d:%d' % (t + 1, cid))
@@ -231,8 +245,15 @@ def validate(ev, cmds, version, nthreads):
     # commands that never entered the lock (unknown command names) have no linearization point: reply is state-independent
     for t in range(1, nthreads + 1):
         m.open(t)
+    side_used = any(cid % 10000 >= 5000 for cid in order)
     for cid in order:
+        if cid not in cmds:
+            continue       # a side connection's (p)subscribe: not part of the sequential replay
         t, f, out, crash, clocks = cmds[cid]
+        if side_used and Cn.name_of(f) == 'publish':
+            # the number of receivers depends on side subscriptions that the replay does not model: feed the command, skip the reply
+            m.cmd(t, f, clocks, [])
+            continue
         name = Cn.name_of(f)
         got = m.cmd(t, f, clocks, [])
         om, crash_m, fault = Mo.parse_out(got)
